@@ -233,6 +233,7 @@ class Stats(object):
         self.exhaustive = {}
         self.failures = []     # dicts: sub, spec, violations
         self.notes = []
+        self.soft_errors = []
 
     def sub(self, name):
         if name not in self.per_sub:
@@ -566,7 +567,13 @@ def replay_regress(pid, mod, stats, known):
         sub = subs.get(rec['sub'])
         if sub is None:
             raise HarnessError('regress file %s names unknown sub-check %s' % (fn, rec['sub']))
-        out, new = evaluate(pid, sub, rec['spec'], stats, known)
+        try:
+            out, new = evaluate(pid, sub, rec['spec'], stats, known)
+        except HarnessError as exc:
+            # kept for the verdict at the end of the run (see run_shard): a violation found elsewhere takes precedence
+            stats.soft_errors.append(str(exc))
+            n += 1
+            continue
         n += 1
         if new:
             stats.failures.append({'sub': sub.name, 'spec': rec['spec'], 'regress_file': fn,
@@ -639,7 +646,7 @@ def run_property(pid, tier, seedval, procs=None, only=None):
         with ctx.Pool(procs) as pool:
             results = pool.map(run_shard, jobs, chunksize=1)
     errors = [r['error'] for r in results if not r['ok']]
-    soft = [e for r in results if r['ok'] for e in r.get('harness_errors', [])]
+    soft = list(stats.soft_errors) + [e for r in results if r['ok'] for e in r.get('harness_errors', [])]
     for r in results:
         if r['ok']:
             stats.merge(r['stats'])
